@@ -2,6 +2,7 @@
 package core
 
 import (
+	"fmt"
 	"sort"
 
 	"verifsim/kernel"
@@ -25,6 +26,7 @@ type Outcome struct {
 	Nontrivial bool           `json:"nontrivial"`
 	Trace      []string       `json:"trace,omitempty"` // readable schedule (only when asked)
 	Log        []string       `json:"log,omitempty"`   // harness log (only when asked)
+	Events     []string       `json:"events,omitempty"`
 }
 
 func (o *Outcome) Violate(class, msg string) {
@@ -100,6 +102,9 @@ func FinishKernel(o *Outcome, s *kernel.Sim, r *kernel.Result, prefix string) {
 	if s.KeepTrace {
 		o.Trace = s.Trace()
 		o.Log = s.Logs()
+		for _, e := range s.Events() {
+			o.Events = append(o.Events, fmt.Sprintf("%d|%s|%s|%s|%d", e.Step, e.Task, e.Site, e.Detail, e.Obj))
+		}
 	}
 }
 
